@@ -398,12 +398,6 @@ def random_tree(rng, idxs):
   return plan, live[0]
 
 
-def data_order_of(plan, root, n):
-  """the order in which the shards' data ends up merged (only used to build the single-batch dataset; the result
-  does not depend on it, which is part of what is being checked)."""
-  return list(range(n))
-
-
 def mk_c01(rng, metric, cfg, shards, api=None):
   n = len(shards)
   api = api or rng.choice(['object', 'aggfn'])
@@ -885,7 +879,7 @@ def neighbours(case, rng):
 # ----------------------------------------------------------------------------- the three sub-checks
 
 def _corpus(ctx, pid):
-  return [c for c in ctx.corpus(pid + '_text')]
+  return list(ctx.corpus('text_' + pid))
 
 
 class C01:
